@@ -348,6 +348,9 @@ class Gen:
                             self.used.discard(v)
                             if len(v) < 2 or not (v[:1].isalpha() and v[1:2].isalnum()):
                                 v = b"v" + v.replace(b"_", b"a") + b"1"
+                            if rng.random() < 0.35:
+                                # underscores inside a variable name (user_id, tenant_2_zone): accepted by the parser's check
+                                v = v[:2] + rng.choice([b"_", b"_id", b"_2_", b"__x"]) + v[2:]
                             toks.append(b"{" + v + b"}")
                             vars_.append(v)
                         else:
